@@ -353,11 +353,12 @@ Qed.
 Lemma pay_all_MI ps f c f' : pay_all f c ps = Ok f' -> MI f ->
   MI f' /\ same_but_toks f f' /\ f_next f' = f_next f /\ f_attrs f' = f_attrs f /\ f_utot f' = f_utot f /\
   (forall w, wsum w (f_out f') = wsum w (f_out f) - psum w ps) /\
-  Forall (fun p => 0 < snd p /\ In (fst p) (akeys (f_out f))) ps.
+  Forall (fun p => 0 < snd p /\ In (fst p) (akeys (f_out f))) ps /\
+  (forall k, In k (akeys (f_out f')) -> In k (akeys (f_out f))).
 Proof.
   intros H [acc led hh fr frh nx wf]. apply pay_all_post in H; auto.
   destruct H as [s1 n1 a1 u1 o1 h1 ndo1 ndh1 nno1 nnh1 k1 hk1 pos1].
-  split; [|split; [exact s1|split; [exact n1|split; [exact a1|split; [exact u1|split; [exact o1|exact pos1]]]]]].
+  split; [|split; [exact s1|split; [exact n1|split; [exact a1|split; [exact u1|split; [exact o1|split; [exact pos1|exact k1]]]]]]].
   pose proof s1 as (C1 & C2 & C3). unfold core in C1. inj C1. unfold money in C3. inj C3.
   constructor.
   - congruence.
@@ -492,7 +493,7 @@ Proof.
   destruct (mint_pos _ m c) as [f6 n] eqn:Hmint. inversion H; subst; clear H.
   apply pay_reward_MI in H0; auto.
   destruct H0 as (M0 & D0 & C0 & T0 & S0 & R0 & L0 & BF0 & G0 & Hb & Hr & Res0 & P0 & Pd0).
-  apply pay_all_MI in H1; auto. destruct H1 as (M1 & SB1 & N1 & A1 & U1 & O1 & Pos1).
+  apply pay_all_MI in H1; auto. destruct H1 as (M1 & SB1 & N1 & A1 & U1 & O1 & Pos1 & K1).
   apply check_update_only in H2. pose proof (only_utot_MI _ _ H2 M1) as M2.
   pose proof (set_utot_only f2 c (utot f2 c + amt)) as H3. fold (increase_user f2 c amt) in H3.
   pose proof (only_utot_MI _ _ H3 M2) as M3.
@@ -532,7 +533,7 @@ Proof.
   apply bind_ok in H. destruct H as (f4 & H4 & H).
   apply bind_ok in H. destruct H as (m & Hm & H).
   destruct (mint_pos f4 m c) as [f5 n] eqn:Hmint. inversion H; subst; clear H.
-  apply pay_all_MI in H1; auto. destruct H1 as (M1 & SB1 & N1 & A1 & U1 & O1 & Pos1).
+  apply pay_all_MI in H1; auto. destruct H1 as (M1 & SB1 & N1 & A1 & U1 & O1 & Pos1 & K1).
   apply settle_MI in H2; auto.
   destruct H2 as (M2 & D2 & C2 & T2 & S2 & BF2 & Pd2 & L2 & tm & cut & inc & Hcut & Hinc & Hinc2 & Res2 & R2 & P2 & G2).
   apply pay_reward_MI in H3; auto.
@@ -572,7 +573,7 @@ Proof.
   apply bind_ok in H. destruct H as (f4 & H4 & H).
   apply bind_ok in H. destruct H as (m & Hm & H).
   destruct (mint_pos f4 m c) as [f5 n] eqn:Hmint. inversion H; subst; clear H.
-  apply pay_all_MI in H1; auto. destruct H1 as (M1 & SB1 & N1 & A1 & U1 & O1 & Pos1).
+  apply pay_all_MI in H1; auto. destruct H1 as (M1 & SB1 & N1 & A1 & U1 & O1 & Pos1 & K1).
   apply settle_MI in H2; auto.
   destruct H2 as (M2 & D2 & C2 & T2 & S2 & BF2 & Pd2 & L2 & tm & cut & inc & Hcut & Hinc & Hinc2 & Res2 & R2 & P2 & G2).
   (* base reward is non-negative *)
@@ -629,7 +630,7 @@ Proof.
   apply bind_ok in H. destruct H as (bal & Hbal & H).
   inversion H; subst; clear H.
   assert (H1' : pay_all f c [p] = Ok f1) by (simpl; rewrite H1; reflexivity).
-  apply pay_all_MI in H1'; auto. destruct H1' as (M1 & SB1 & N1 & A1 & U1 & O1 & Pos1).
+  apply pay_all_MI in H1'; auto. destruct H1' as (M1 & SB1 & N1 & A1 & U1 & O1 & Pos1 & K1).
   apply settle_MI in H2; auto.
   destruct H2 as (M2 & D2 & C2 & T2 & S2 & BF2 & Pd2 & L2 & tm & cut & inc & Hcut & Hinc & Hinc2 & Res2 & R2 & P2 & G2).
   apply pay_reward_MI in H3; auto.
@@ -668,7 +669,7 @@ Proof.
   destruct (mint_pos f2 _ c) as [f3 n] eqn:Hmint. inversion H; subst; clear H.
   apply pay_reward_MI in H0; auto.
   destruct H0 as (M0 & D0 & C0 & T0 & S0 & R0 & L0 & BF0 & G0 & Hb & Hr & Res0 & P0 & Pd0).
-  apply pay_all_MI in H1; auto. destruct H1 as (M1 & SB1 & N1 & A1 & U1 & O1 & Pos1).
+  apply pay_all_MI in H1; auto. destruct H1 as (M1 & SB1 & N1 & A1 & U1 & O1 & Pos1 & K1).
   apply check_update_only in H2. pose proof (only_utot_MI _ _ H2 M1) as M2.
   apply into_part_amt in Hpart. destruct Hpart as (Pa & _).
   apply merge_payments_amt in Hm. destruct Hm as [Hm _].
